@@ -2,9 +2,11 @@ use engine::Property;
 pub mod c05;
 pub mod c06;
 pub mod c10;
+pub mod c13;
 pub mod c14;
+pub mod sched;
 pub mod words;
 
 pub fn properties() -> Vec<Box<dyn Property>> {
-    vec![Box::new(c05::C05), Box::new(c06::C06), Box::new(c10::C10), Box::new(c14::C14)]
+    vec![Box::new(c05::C05), Box::new(c06::C06), Box::new(c10::C10), Box::new(c13::C13), Box::new(c14::C14)]
 }
